@@ -748,6 +748,59 @@ fn compositions(n: usize) -> Vec<Vec<usize>> {
     out
 }
 
+/// Lean checker for the largest simple-glyph family: one glyph, short loca; everything the full
+/// checker demands except the per-glyph `dump_table` (length is taken from the location table) and the
+/// owned re-read. Returns false when anything is off — the caller then runs the full checker on the same
+/// case, which reports with the usual identities.
+fn check_simple_fast(contours: &[Vec<Pt>], l: &mut Local) -> bool {
+    let glyph = SimpleGlyph {
+        bbox: bbox_of(contours),
+        contours: contours
+            .iter()
+            .map(|c| Contour::from(c.iter().map(|p| CurvePoint::new(p.0, p.1, p.2)).collect::<Vec<_>>()))
+            .collect(),
+        instructions: vec![],
+    };
+    l.trans += 3;
+    let r = guard(|| {
+        let mut b = GlyfLocaBuilder::new();
+        b.add_glyph(&glyph).ok()?;
+        let (glyf, loca, fmt) = b.build();
+        let gb = dump_table(&glyf).ok()?;
+        let lb = dump_table(&loca).ok()?;
+        if fmt != LocaFormat::Short || gb.len() > reference_len(contours, 0) {
+            return None;
+        }
+        let rloca = rl::Loca::read(FontData::new(&lb), false).ok()?;
+        let rglyf = rg::Glyf::read(FontData::new(&gb)).ok()?;
+        if rloca.len() != 1 || rloca.get_raw(0) != Some(0) || rloca.get_raw(1) != Some(gb.len() as u32) {
+            return None;
+        }
+        match rloca.get_glyf(GlyphId::new(0), &rglyf).ok()? {
+            Some(rg::Glyph::Simple(g)) => {
+                if compare_simple(&g, contours, &[]).is_some() {
+                    return None;
+                }
+            }
+            _ => return None,
+        }
+        let mut h = Fnv::new();
+        h.str("A");
+        h.u64(0);
+        h.str("S");
+        h.bytes(&gb[10..]);
+        Some(h.finish())
+    });
+    match r {
+        Ok(Some(d)) => {
+            l.all.insert(d);
+            l.nontrivial.insert(d);
+            true
+        }
+        _ => false,
+    }
+}
+
 fn simple_family(run: &Run) {
     let n_max = run.tier.pick(3usize, 4usize);
     let quick = run.tier == Tier::Quick;
@@ -852,6 +905,49 @@ fn simple_family(run: &Run) {
             .collect();
         for l in locals {
             l.merge(run, &format!("A.n{n}"));
+        }
+    }
+    if run.tier == Tier::Thorough {
+        // 4 points over the full 9-value alphabet, as one contour and as two contours of two points
+        run.bound("A.n4_full_alphabet_splits", json!([[4], [2, 2]]));
+        let a = &a9;
+        let locals: Vec<Local> = (0..a.len() * a.len())
+            .into_par_iter()
+            .map(|t| {
+                let mut l = Local::new();
+                let first = [a[t / a.len()], a[t % a.len()]];
+                for c2 in a.iter() {
+                    for c3 in a.iter() {
+                        let mut pts: Vec<Pt> = Vec::with_capacity(4);
+                        let (mut x, mut y) = (0i32, 0i32);
+                        let mut ok = true;
+                        for c in [first[0], first[1], *c2, *c3] {
+                            x += c.0;
+                            y += c.1;
+                            if !(-32768..=32767).contains(&x) || !(-32768..=32767).contains(&y) {
+                                ok = false;
+                                break;
+                            }
+                            pts.push((x as i16, y as i16, c.2));
+                        }
+                        if !ok {
+                            continue;
+                        }
+                        for contours in [vec![pts.clone()], vec![pts[..2].to_vec(), pts[2..].to_vec()]] {
+                            l.evals += 1;
+                            if !check_simple_fast(&contours, &mut l) {
+                                let seq = [GSpec::Simple { contours, instr: vec![] }];
+                                let case = || seq_json("A", &seq, 0);
+                                check_sequence(run, "A", &seq, 0, &mut l, &case);
+                            }
+                        }
+                    }
+                }
+                l
+            })
+            .collect();
+        for l in locals {
+            l.merge(run, "A.n4_full");
         }
     }
     run.sample(seq_json(
@@ -1010,6 +1106,59 @@ fn composite_family(run: &Run) {
 // C: builder sequences and the short/long boundary
 // ---------------------------------------------------------------------------
 
+/// OVERLAP_SIMPLE (bit 6 of the first flag) set by hand on built glyphs: the readers must decode the same
+/// points and report the bit; the write type has no field for it (recorded as a side observation).
+fn overlap_family(run: &Run) {
+    let mut l = Local::new();
+    let mut specs: Vec<(Vec<Vec<Pt>>, Vec<u8>)> = vec![];
+    for r in [1usize, 2, 3, 255, 256, 257, 300] {
+        specs.push((vec![(0..r).map(|i| (i as i16 + 1, 0, true)).collect()], vec![]));
+        specs.push((vec![(0..r).map(|i| (i as i16 * 3, (i % 2) as i16 * 300, i % 3 == 0)).collect()], vec![7, 7, 7]));
+    }
+    let mut preserved = 0;
+    let mut dropped = 0;
+    for (contours, instr) in &specs {
+        l.evals += 1;
+        let spec = GSpec::Simple { contours: contours.clone(), instr: instr.clone() };
+        let case = || json!({"kind":"overlap","glyph":gspec_json(&spec)});
+        let Ok(mut bytes) = dump_table(&to_write_glyph(&spec)) else { continue };
+        let first_flag = 10 + 2 * contours.len() + 2 + instr.len();
+        bytes[first_flag] |= 0x40;
+        let r = guard(|| {
+            let g = rg::SimpleGlyph::read(FontData::new(&bytes)).ok()?;
+            Some((compare_simple(&g, contours, instr), g.has_overlapping_contours()))
+        });
+        match r {
+            Ok(Some((None, true))) => {}
+            Ok(Some((Some(w), _))) => run.violation(
+                &format!("simple glyph with OVERLAP_SIMPLE decodes differently: {}", w.0),
+                &w.1,
+                case(),
+            ),
+            Ok(Some((None, false))) => run.violation("has_overlapping_contours misses OVERLAP_SIMPLE on the first flag", "", case()),
+            Ok(None) => run.violation("simple glyph with OVERLAP_SIMPLE does not parse", "", case()),
+            Err(p) => run.violation(&format!("glyf reader panic: {} in {}", p.kind(), p.site()), &p.message, case()),
+        }
+        // does read -> owned -> write keep the bit?
+        if let Ok(owned) = SimpleGlyph::read(FontData::new(&bytes)) {
+            if let Ok(again) = dump_table(&owned) {
+                if again.get(first_flag).map(|f| f & 0x40 != 0).unwrap_or(false) {
+                    preserved += 1;
+                } else {
+                    dropped += 1;
+                }
+            }
+        }
+        let mut h = Fnv::new();
+        h.str("overlap");
+        h.bytes(&bytes[10..]);
+        l.all.insert(h.finish());
+        l.nontrivial.insert(h.finish());
+    }
+    run.extra("side_observation.OVERLAP_SIMPLE_through_read_own_write", json!({"preserved": preserved, "dropped": dropped}));
+    l.merge(run, "O");
+}
+
 fn sequence_family(run: &Run) {
     let letters: Vec<GSpec> = vec![
         GSpec::Empty,
@@ -1064,7 +1213,7 @@ fn sequence_family(run: &Run) {
     let mut layouts: Vec<(usize, usize, u8)> = vec![];
     for &t in &totals {
         for &a in &firsts {
-            for layout in 0..5u8 {
+            for layout in 0..7u8 {
                 layouts.push((t, a, layout));
             }
         }
@@ -1074,32 +1223,7 @@ fn sequence_family(run: &Run) {
         .par_iter()
         .map(|&(t, a, layout)| {
             let mut l = Local::new();
-            let tiny = letters[3].clone(); // 20 bytes
-            let mut seq: Vec<GSpec> = vec![];
-            // remaining bytes after the first big glyph (and the tiny one in layouts 1/4)
-            let tiny_len = if layout == 1 || layout == 4 { 20 } else { 0 };
-            let mut rest = t - a - tiny_len;
-            seq.push(sized_glyph(a, 1));
-            if layout == 1 {
-                seq.push(tiny.clone());
-            }
-            let mut salt = 2;
-            while rest > 0 {
-                // never leave a remainder below the minimum glyph size (16)
-                let mut take = rest.min(65548);
-                if rest - take != 0 && rest - take < 16 {
-                    take -= 16;
-                }
-                seq.push(sized_glyph(take, salt));
-                salt += 1;
-                rest -= take;
-            }
-            match layout {
-                2 => seq.push(GSpec::Empty),
-                3 => seq.insert(0, GSpec::Empty),
-                4 => seq.push(tiny.clone()),
-                _ => {}
-            }
+            let seq = sized_seq(t, a, layout);
             l.evals += 1;
             let desc = json!({"kind":"sized","total":t,"first":a,"layout":layout});
             let case = || desc.clone();
@@ -1122,13 +1246,45 @@ fn sequence_family(run: &Run) {
     for l in locals {
         l.merge(run, "C.sized");
     }
+    // glyph counts around and beyond 65535
+    let counts = [65535usize, 65536, 65537, 70001];
+    run.bound("C.many_glyph_counts", json!(counts));
+    let mut tasks = vec![];
+    for c in counts {
+        for dense in [false, true] {
+            tasks.push((c, dense));
+        }
+    }
+    let locals: Vec<Local> = tasks
+        .par_iter()
+        .map(|&(c, dense)| {
+            let mut l = Local::new();
+            let seq = many_seq(c, dense);
+            l.evals += 1;
+            let desc = json!({"kind":"many","count":c,"dense":dense});
+            let case = || desc.clone();
+            check_sequence(run, "C.many", &seq, 0, &mut l, &case);
+            l
+        })
+        .collect();
+    for l in locals {
+        l.merge(run, "C.many");
+    }
 }
 
 fn sized_from_desc(d: &Value) -> Vec<GSpec> {
-    // mirror of the construction above (for replay)
-    let t = d["total"].as_u64().unwrap() as usize;
-    let a = d["first"].as_u64().unwrap() as usize;
-    let layout = d["layout"].as_u64().unwrap() as u8;
+    sized_seq(
+        d["total"].as_u64().unwrap() as usize,
+        d["first"].as_u64().unwrap() as usize,
+        d["layout"].as_u64().unwrap() as u8,
+    )
+}
+
+/// glyph sequence whose encodings add up to exactly `t` bytes; first big glyph of `a` bytes.
+/// layouts: 0 plain; 1 tiny glyph after the first; 2 Empty at the end; 3 Empty at the start; 4 tiny at
+/// the end; 5 Empty after the first big glyph; 6 Empty + contour-less simple glyphs at the start, between
+/// every two big glyphs and at the end (equal consecutive offsets on both sides of the boundary).
+fn sized_seq(t: usize, a: usize, layout: u8) -> Vec<GSpec> {
     let tiny = GSpec::Simple { contours: vec![vec![(5, 0, true), (10, 0, false)]], instr: vec![0x4B] };
     let mut seq: Vec<GSpec> = vec![];
     let tiny_len = if layout == 1 || layout == 4 { 20 } else { 0 };
@@ -1137,11 +1293,19 @@ fn sized_from_desc(d: &Value) -> Vec<GSpec> {
     if layout == 1 {
         seq.push(tiny.clone());
     }
+    if layout == 5 {
+        seq.push(GSpec::Empty);
+    }
     let mut salt = 2;
     while rest > 0 {
+        // never leave a remainder below the minimum glyph size (16)
         let mut take = rest.min(65548);
         if rest - take != 0 && rest - take < 16 {
             take -= 16;
+        }
+        if layout == 6 {
+            seq.push(GSpec::Empty);
+            seq.push(GSpec::Simple { contours: vec![], instr: vec![] });
         }
         seq.push(sized_glyph(take, salt));
         salt += 1;
@@ -1151,9 +1315,31 @@ fn sized_from_desc(d: &Value) -> Vec<GSpec> {
         2 => seq.push(GSpec::Empty),
         3 => seq.insert(0, GSpec::Empty),
         4 => seq.push(tiny),
+        6 => {
+            seq.insert(0, GSpec::Empty);
+            seq.push(GSpec::Empty);
+            seq.push(GSpec::Empty);
+        }
         _ => {}
     }
     seq
+}
+
+/// more glyphs than a 16-bit glyph count can name: the builder has no limit of its own, so the tables
+/// must either be refused or be correct for every index. `dense`: most glyphs non-empty (long loca).
+fn many_seq(count: usize, dense: bool) -> Vec<GSpec> {
+    let even = GSpec::Simple { contours: vec![vec![(5, 0, true), (10, 0, false)]], instr: vec![] };
+    let odd = GSpec::Simple { contours: vec![vec![(5, 0, true), (10, 0, false)]], instr: vec![0x4B] };
+    (0..count)
+        .map(|i| {
+            let k = if dense { i % 3 } else { i % 64 };
+            match k {
+                1 => even.clone(),
+                2 => odd.clone(),
+                _ => GSpec::Empty,
+            }
+        })
+        .collect()
 }
 
 // ---------------------------------------------------------------------------
@@ -1315,9 +1501,11 @@ fn check_path(run: &Run, els: &[El], l: &mut Local) {
                 path.quad_to((a, b), (x, y));
             }
             El::Z => path.close_path(),
-            El::C => {}
+            El::C => path.curve_to((1.0, 2.0), (3.0, 4.0), (5.0, 6.0)),
         }
     }
+    // documented to be refused: cubic segments, a segment before the first move
+    let expect_err = els.iter().any(|e| matches!(e, El::C)) || !matches!(els.first(), Some(El::M(..)) | None);
     let integer = els.iter().all(|e| match *e {
         El::M(x, y) | El::L(x, y) => x.fract() == 0.0 && y.fract() == 0.0,
         El::Q(a, b, x, y) => a.fract() == 0.0 && b.fract() == 0.0 && x.fract() == 0.0 && y.fract() == 0.0,
@@ -1325,9 +1513,27 @@ fn check_path(run: &Run, els: &[El], l: &mut Local) {
     });
     l.trans += 1;
     let glyph = match guard(|| SimpleGlyph::from_bezpath(&path)) {
-        Ok(Ok(g)) => g,
+        Ok(Ok(g)) => {
+            if expect_err {
+                run.violation(
+                    "SimpleGlyph::from_bezpath accepts a malformed path (cubic segment / segment before a move)",
+                    &format!("{els:?} -> {} contours", g.contours.len()),
+                    case(),
+                );
+                return;
+            }
+            g
+        }
         Ok(Err(e)) => {
-            run.violation("SimpleGlyph::from_bezpath rejects a closed line/quad path", &format!("{e:?}"), case());
+            if expect_err {
+                let mut h = Fnv::new();
+                h.str("refused");
+                h.str(&format!("{e:?}"));
+                l.all.insert(h.finish());
+                l.nontrivial.insert(h.finish());
+                return;
+            }
+            run.violation("SimpleGlyph::from_bezpath rejects a line/quad path", &format!("{e:?}"), case());
             return;
         }
         Err(p) => {
@@ -1591,6 +1797,66 @@ fn path_family(run: &Run) {
         run.bound("D.two_contour_pairs", json!(format!("all {} × {}", twos_a.len(), twos_b.len())));
     }
     run.count("D.two_contour_paths", pairs);
+    // D2: open paths (implicitly closed by glyf), zero-length segments, and malformed paths
+    let mut variants = 0u64;
+    let mut base: Vec<Vec<El>> = vec![];
+    for k in 1..=3 {
+        for_each_contour(k, (0.0, 0.0), false, &mut |els| base.push(els));
+    }
+    for els in &base {
+        let n = els.len();
+        // open: no ClosePath
+        paths.push(els[..n - 1].to_vec());
+        // open and without the last segment when that is a line (implicit closing line)
+        if matches!(els[n - 2], El::L(..)) && n > 3 {
+            paths.push(els[..n - 2].to_vec());
+            variants += 1;
+        }
+        // zero-length line right after the move, and one before the close
+        if let El::M(x, y) = els[0] {
+            let mut v = els.clone();
+            v.insert(1, El::L(x, y));
+            paths.push(v);
+            let mut v = els.clone();
+            let last = match els[n - 2] {
+                El::L(x, y) | El::Q(_, _, x, y) | El::M(x, y) => (x, y),
+                _ => (x, y),
+            };
+            v.insert(n - 1, El::L(last.0, last.1));
+            paths.push(v);
+        }
+        // a cubic segment in second position, and the path without its move
+        let mut v = els.clone();
+        v.insert(1, El::C);
+        paths.push(v);
+        paths.push(els[1..].to_vec());
+        variants += 5;
+    }
+    // a second contour that is left open before the next move
+    for a in twos_a.iter().take(40) {
+        for b in twos_b.iter().take(8) {
+            let mut els = a[..a.len() - 1].to_vec();
+            els.extend(b.iter().copied());
+            paths.push(els);
+            variants += 1;
+        }
+    }
+    // degenerate: lone move, move + close
+    paths.push(vec![El::M(3.0, 4.0)]);
+    paths.push(vec![El::M(3.0, 4.0), El::Z]);
+    run.count("D2.open_zero_length_and_malformed_variants", variants + 2);
+    // the empty path: documented as an error; whatever happens must not be a panic (recorded)
+    {
+        let r = guard(|| SimpleGlyph::from_bezpath(&BezPath::new()));
+        run.extra(
+            "side_observation.from_bezpath_on_empty_path",
+            json!(match r {
+                Ok(Ok(g)) => format!("Ok: glyph with {} contours", g.contours.len()),
+                Ok(Err(e)) => format!("Err({e:?})"),
+                Err(p) => format!("PANIC {}", p.message),
+            }),
+        );
+    }
     run.sample(json!({"kind":"path","els":els_json(&paths[paths.len() / 3])}));
     let locals: Vec<Local> = paths
         .par_chunks(256)
@@ -1629,6 +1895,12 @@ fn body(run: &Run, replay: Option<&Value>) {
                 let c = || case.clone();
                 check_sequence(run, "A2", &seq, 0, &mut l, &c);
             }
+            Some("many") => {
+                let seq = many_seq(case["count"].as_u64().unwrap() as usize, case["dense"].as_bool().unwrap_or(false));
+                let c = || case.clone();
+                check_sequence(run, "C.many", &seq, 0, &mut l, &c);
+            }
+            Some("overlap") => println!("overlap cases are re-run by the tier (hand-patched bytes)"),
             Some("sized") => {
                 let seq = sized_from_desc(case);
                 let c = || case.clone();
@@ -1663,6 +1935,21 @@ fn body(run: &Run, replay: Option<&Value>) {
             );
         }
     }
+    // side observation: a contour-less simple glyph that carries instructions is written as an empty glyph
+    {
+        let seq = [GSpec::Simple { contours: vec![], instr: vec![1, 2, 3] }, GSpec::Simple { contours: vec![vec![(1, 1, true)]], instr: vec![] }];
+        let mut b = GlyfLocaBuilder::new();
+        for g in seq.iter().map(to_write_glyph) {
+            let _ = b.add_glyph(&g);
+        }
+        let (_, loca, _) = b.build();
+        let lb = dump_table(&loca).unwrap_or_default();
+        run.extra(
+            "side_observation.contourless_simple_glyph_with_instructions",
+            json!({"glyph_0_length_in_glyf": u16::from_be_bytes([lb[2], lb[3]]) as u32 * 2, "instructions_given": 3, "note": "Glyph::from(SimpleGlyph) maps it to Glyph::Empty and SimpleGlyph::write_into writes nothing (same as fontTools)"}),
+        );
+    }
+    overlap_family(run);
     sequence_family(run);
     composite_family(run);
     run_family(run);
